@@ -133,6 +133,19 @@ def hi_body(ctx, p):
     ctx.close(a.ravel(), L @ g, 1e-10, "screen is the linear map of its draws", scale=float(np.max(np.abs(a))) or 1.0, name="linearity")
     k = p["k"]
     ctx.close(run(r0 * k), a * k ** (-5.0 / 6), 1e-12, "amplitude scales as r0^(-5/6) for fixed draws", scale=float(np.max(np.abs(a))) * k ** (-5.0 / 6) or 1.0, name="r0 scaling")
+    # history with a near-coincidence of arguments: a call whose geometry differs by a few parts in 1e6 from the
+    # immediately preceding call must not inherit anything from it
+    eps_ = 3e-6
+    near = dict(delta=delta * (1 + eps_), L0=L0 * (1 - eps_), l0=l0 * (1 + eps_))
+    def run_near():
+        s = Scripted()
+        s.feed(g)
+        return PSm().ft_phase_screen(r0, N, near["delta"], near["L0"], near["l0"], seed=s)
+    run(r0)                                   # previous call: the case's own geometry
+    after_neighbour = run_near()
+    PSm().ft_phase_screen(r0 * 2, N + 2, delta * 3, 7.0, 0.05, seed=Scripted())      # an unrelated call
+    after_unrelated = run_near()
+    ctx.equal(after_neighbour, after_unrelated, "a screen depends on the (nearly equal) geometry of the immediately preceding call")
     # seeded int and real Generator give that same linear map of their own draws
     g2 = np.random.default_rng(p["seed"])
     draws = np.concatenate([g2.normal(size=(N, N)).ravel(), g2.normal(size=(N, N)).ravel()])
